@@ -346,14 +346,17 @@ def dumpFields (std : Std) (ts : Bool) (cfg : Option MetaCfg) (eff : MetaCfg) (a
       let fi := (ci.fields.find? (fun f => f.name == name)).getD { name := name }
       let here ←
         if fi.isCatchAll then
-          -- catch-all: items re-emitted at top level unless equal to the default / excluded
-          let excl := excluded args fi
+          -- catch-all: items re-emitted at top level unless the field is excluded, skipped as a default (a defaulted catch-all
+          -- takes part in the skip-defaults bookkeeping like any defaulted field), or equal to its default
           let isDefault := match fi.dflt with | some d => pyEqDflt v d | none => false
-          if excl || isDefault then pure []
-          else
-            match v with
-            | .map _ kvs => dumpCatchAll std ts cfg kvs
-            | _ => pure []
+          if excluded args fi then pure []
+          else do
+            let bydef ← if skipDefaultsOn eff args then defaultTest eff fi v else pure false
+            if bydef || isDefault then pure []
+            else
+              match v with
+              | .map _ kvs => dumpCatchAll std ts cfg kvs
+              | _ => pure []
         else do
           let skipped ← fieldSkipped eff args fi v
           if skipped then pure []
